@@ -101,22 +101,33 @@ def run(ctx):
     dev = bool(os.environ.get('VERIF_C17_DEV'))      # development aid: skip the (tree-independent) model-checking runs
     box, errs = {}, {}
 
-    # the four TLC runs and the harness build are independent: with >= 12 CPUs they run side by side (4 workers each),
-    # otherwise one after the other with at most NCPU workers (never more than NCPU busy processes)
-    parallel = vlib.NCPU >= 12
-    wk = 4 if parallel else max(1, min(4, vlib.NCPU))
+    # the TLC runs and the harness build are independent. They are organised in lanes (a lane runs its tasks one after the
+    # other, 4 TLC workers each): >= 12 CPUs one lane per task, >= 8 CPUs two lanes (model checking | build + generation),
+    # otherwise a single lane with at most NCPU workers -- never more than NCPU busy workers.
+    nlanes = 99 if vlib.NCPU >= 12 else (2 if vlib.NCPU >= 8 else 1)
+    wk = 4 if nlanes > 1 else max(1, min(4, vlib.NCPU))
+    tasks = []
 
     def bg(name, fn):
-        def wrap():
-            try:
-                box[name] = fn()
-            except BaseException as e:  # noqa
-                errs[name] = e
-        t = threading.Thread(target=wrap, name=name)
-        t.start()
-        if not parallel:
+        tasks.append((name, fn))
+
+    def run_lanes():
+        lanes = {}
+        for name, fn in tasks:
+            key = name if nlanes > 2 else (0 if (name in ('mc', 'mcseq') and nlanes == 2) else 1)
+            lanes.setdefault(key, []).append((name, fn))
+
+        def lane(items):
+            for name, fn in items:
+                try:
+                    box[name] = fn()
+                except BaseException as e:  # noqa
+                    errs[name] = e
+        ths = [threading.Thread(target=lane, args=(items,)) for items in lanes.values()]
+        for t in ths:
+            t.start()
+        for t in ths:
             t.join()
-        return t
 
     series = [1, 2, 3] if quick else [1, 2, 3, 4]
     # behaviours per family (TLC writes `num` per simulation worker)
@@ -124,20 +135,24 @@ def run(ctx):
     nconc = (240 if quick else 2400) // wk
     if dev:
         nseq = nconc = int(os.environ.get('VERIF_C17_DEV_N', '120')) // wk
-    ths = [bg('bin', lambda: ctx.go_build('bdel'))]
+    bg('bin', lambda: ctx.go_build('bdel'))
     if not dev:
         # 1. model checking (VIEW hides hist; history not even recorded): protocol with two concurrent writers, every interleaving
-        ths.append(bg('mc', lambda: ctx.tlc_must_pass('BucketDelete', f'BucketDelete.MC_{tier}.cfg', timeout=1700,
-                                                      coverage=True, workers=wk, tag='mc')))
+        bg('mc', lambda: ctx.tlc_must_pass('BucketDelete', f'BucketDelete.MC_{tier}.cfg', timeout=1700,
+                                                      coverage=True, workers=wk, tag='mc'))
         # 2. model checking of the delete alone over every dataset / predicate / range of a core of the generation domain
-        ths.append(bg('mcseq', lambda: ctx.tlc_must_pass('BucketDelete', f'BucketDelete.MCseq_{tier}.cfg', timeout=1700,
-                                                         coverage=True, workers=wk, tag='mcseq')))
+        bg('mcseq', lambda: ctx.tlc_must_pass('BucketDelete', f'BucketDelete.MCseq_{tier}.cfg', timeout=1700,
+                                                         coverage=True, workers=wk, tag='mcseq'))
     # 3. behaviours for replay (seeded simulation; the state counts of these runs are reported, their purpose is generation)
-    ths.append(bg('gseq', lambda: gen(ctx, f'BucketDelete.Gen_seq_{tier}.cfg', 'seq', series, nseq, wk, 26 if quick else 30, 1700)))
-    ths.append(bg('gconc', lambda: gen(ctx, f'BucketDelete.Gen_conc_{tier}.cfg', 'conc', [1, 2, 3], nconc, wk, 40 if quick else 46, 1700)))
-    for t in ths:
-        t.join()
-    for name in ('mc', 'mcseq', 'gseq', 'gconc', 'bin'):
+    bg('gseq', lambda: gen(ctx, f'BucketDelete.Gen_seq_{tier}.cfg', 'seq', series, nseq, wk, 26 if quick else 30, 1700))
+    bg('gconc', lambda: gen(ctx, f'BucketDelete.Gen_conc_{tier}.cfg', 'conc', [1, 2, 3], nconc, wk, 40 if quick else 46, 1700))
+    # batches that straddle the delete range (one timestamp before, one after, none inside: not a conflict)
+    nstr = (120 if quick else 800) // wk
+    if dev:
+        nstr = max(1, nconc // 2)
+    bg('gstr', lambda: gen(ctx, f'BucketDelete.Gen_straddle_{tier}.cfg', 'straddle', [1, 2, 3], nstr, wk, 40 if quick else 46, 1700))
+    run_lanes()
+    for name in ('mc', 'mcseq', 'gseq', 'gconc', 'gstr', 'bin'):
         if name in errs:
             raise errs[name]
     if not dev:
@@ -147,6 +162,10 @@ def run(ctx):
     gc, conc_cases, conc_total = box['gconc']
     if not seq_cases or not conc_cases:
         raise vlib.Inconclusive('simulation produced no complete behaviour')
+    gt, str_cases, str_total = box['gstr']
+    if not str_cases:
+        raise vlib.Inconclusive('simulation produced no complete straddling behaviour')
+    conc_cases = conc_cases + str_cases
     cases = seq_cases + conc_cases
     if not quick:
         # thorough: every behaviour under a second concretisation
@@ -158,19 +177,28 @@ def run(ctx):
     blocked = sum((x.get('extra') or {}).get('blocked_writers', 0) for x in res if x.get('ok'))
     during = sum((x.get('extra') or {}).get('writers_during_guard', 0) for x in res if x.get('ok'))
     ctx.extra_cov['sequential_behaviours'] = {'simulated': seq_total, 'distinct_complete': len(seq_cases)}
-    ctx.extra_cov['concurrent_behaviours'] = {'simulated': conc_total, 'distinct_complete': len(conc_cases)}
+    ctx.extra_cov['concurrent_behaviours'] = {'simulated': conc_total, 'distinct_complete': len(conc_cases) - len(str_cases)}
     ctx.extra_cov['replayed_cases'] = len(cases)
     ctx.extra_cov['conflicting_writers_checked_blocked_until_guard_release'] = blocked
     ctx.extra_cov['nonconflicting_writers_completed_while_delete_parked'] = during
     # vacuity guard on the generated schedules (spec side, independent of the tree under test)
-    sb = sd = 0
+    sb = sd = ss = se = 0
     for c in conc_cases:
         for x in c['steps']:
             if x['a'] == 'wbegin':
+                straddles = (not x['conflicts']) and min(x['T']) < c['lo'] and max(x['T']) > c['hi']
                 if x['w'] in x['exp']['blocked']:
                     sb += 1
                 elif x['exp']['dstep'][x['sh'] - 1] in ('installed', 'guarded'):
                     sd += 1
+                    ss += 1 if straddles else 0
+                elif straddles and x['exp']['dstep'][x['sh'] - 1] in ('none', 'entered'):
+                    se += 1       # in flight before the guard is installed on its shard
+    ctx.extra_cov['straddling_behaviours'] = {'simulated': str_total, 'distinct_complete': len(str_cases)}
+    ctx.extra_cov['schedules_with_straddling_writer_during_guard'] = ss
+    ctx.extra_cov['schedules_with_straddling_writer_before_guard'] = se
+    if ss == 0 or se == 0:
+        raise vlib.Inconclusive(f'vacuity guard: generated schedules contain {ss} straddling writers during a guard and {se} before it')
     ctx.extra_cov['schedules_with_blocked_writer'] = sb
     ctx.extra_cov['schedules_with_nonconflicting_writer_during_guard'] = sd
     if sb == 0 or sd == 0:
@@ -190,6 +218,8 @@ def run(ctx):
         'DropSeries (code comment "inherently racy") has no park point and is not exercised',
         'never blocked = completes within 10 s while the delete is parked; a miss must reproduce 3 times, else inconclusive',
         'points written by two writers released by the same guard may hold either value',
+        'a write is a batch with a set of timestamps; a batch straddling the delete range (points before and after, none inside) is '
+        'non-conflicting and is generated by a dedicated family (range [2,2], batches {1,3} and {2})',
     ]
 
 
